@@ -42,6 +42,10 @@ Definition fl_ltb (a b : fl) : bool :=
   fm a * 2 ^ (fe a - e) <? fm b * 2 ^ (fe b - e).
 Definition fl_leb (a b : fl) : bool := negb (fl_ltb b a).
 
+(* int(float64): truncation toward zero *)
+Definition fl_trunc (a : fl) : Z :=
+  if fe a >=? 0 then fm a * 2 ^ (fe a) else Z.quot (fm a) (2 ^ (- fe a)).
+
 Lemma fl_eqb_eq : forall a b, fl_eqb a b = true <-> a = b.
 Proof.
   intros [m1 e1] [m2 e2]; unfold fl_eqb; cbn [fm fe]. rewrite andb_true_iff, !Z.eqb_eq.
